@@ -776,10 +776,26 @@ def parser_case(draw, **kw):
             spec["drop_invalid_rows"] = True
             _uniquify_index(table)
             opts.append(op)
-        elif op == "mi-coerce" and spec.get("index") and "multi" in spec["index"] and table.get("index") \
-                and "multi" in table["index"] and "mi-coerce" not in opts:
+        elif op == "mi-coerce" and "mi-coerce" not in opts:
             # a conforming MultiIndex whose schema lists the (named) levels in another order than the data, coercion on:
             # every level already has its type, so coercion must hand the index back as it is
+            if not (spec.get("index") and "multi" in spec["index"] and table.get("index") and "multi" in table["index"]
+                    and [l.get("name") for l in spec["index"]["multi"]] == [l.get("name") for l in table["index"]["multi"]]):
+                # (the drawn pair has no such index: it gets one - a fixed share of the cases, not a lucky draw)
+                if not draw(st.booleans()):
+                    continue
+                from . import spec as _sp
+
+                n_ = _sp.table_nrows(table)
+                table.pop("nrows", None)
+                phys2 = draw(st.sampled_from(["object", "int64"]))
+                l1 = draw(cells_strategy("int64", n_))
+                l2 = draw(st.lists(st.sampled_from(_pool(phys2)), min_size=n_, max_size=n_))
+                nm = draw(st.sampled_from([["i", "j"], ["j", "i"], ["i", "k"]]))
+                table["index"] = {"multi": [{"name": nm[0], "phys": "int64", "cells": l1}, {"name": nm[1], "phys": phys2, "cells": l2}]}
+                spec["index"] = {"multi": [{"name": nm[0], "dtype": "int64", "nullable": False, "unique": False, "checks": []},
+                                           {"name": nm[1], "dtype": "str" if phys2 == "object" else "int64", "nullable": False,
+                                            "unique": False, "checks": []}], "strict": False, "ordered": True}
             sl, tl = spec["index"]["multi"], table["index"]["multi"]
             names = [l.get("name") for l in tl]
             if len(sl) >= 2 and len(sl) == len(tl) and None not in names and len(set(names)) == len(names) \
